@@ -1680,6 +1680,8 @@ class Interp:
             return Opaque('tolerance test ' + nm)
         if nm == 'shape' and len(args) == 1:
             a_ = args[0]
+            if isinstance(a_, ArrBox): return ('N',)           # array mode: every array lives on the one generic grid
+            if a_ is None: return ()
             if isinstance(a_, Vec): return (len(a_),)
             if isinstance(a_, Arr) and a_.shape is not None: return tuple(a_.shape)
             if isinstance(a_, (Node, int, Fraction, float)): return ()
